@@ -395,6 +395,23 @@ def iterator_cmp(i, fr, st, pc, a, t, fn, r):
     return _ret(i, st, pc, Opaque("lexcmp", (tuple(la), tuple(lb))))
 
 
+def partial_ne(i, fr, st, pc, a, t, fn, r):
+    """provided method PartialEq::ne = !eq, with eq resolved to the local impl of the Self type"""
+    selfty = (r or fn)["args"][0]
+    path = selfty.get("path")
+    cands = [b for b, sty, tr in i.facts.trait_impl_methods("std::cmp::PartialEq") if sty.get("path") == path and b["name"] == "eq"]
+    if not cands:
+        raise Undecided("PartialEq::ne on %s" % selfty.get("s"))
+    outs = i.call_mir(cands[0], cands[0]["mir"], a, st, dict(fr.env), fr.depth + 1, pc)
+    res = []
+    for o in outs:
+        if o.kind == "return":
+            res.append(Outcome("return", o.state, o.pc, b_not(o.value)))
+        else:
+            res.append(o)
+    return res
+
+
 def thread_rng(i, fr, st, pc, a, t, fn, r):
     i.rng_sources = getattr(i, "rng_sources", 0) + 1
     return _ret(i, st, pc, Opaque("thread_rng", ()))
@@ -574,6 +591,7 @@ TABLE = {
     "std::cmp::impls::<impl std::cmp::Ord for usize>::cmp": ord_cmp_int,
     "std::cmp::impls::<impl std::cmp::Ord for u32>::cmp": ord_cmp_int,
     "std::cmp::Ordering::is_lt": is_lt,
+    "std::cmp::PartialEq::ne": partial_ne,
     "rand::thread_rng": thread_rng,
     "<rand::prelude::ThreadRng as rand::RngCore>::next_u64": next_u64,
     "core::slice::index::<impl std::ops::IndexMut<I> for [T]>::index_mut": index_mut_range,
